@@ -613,3 +613,47 @@ _add("C20", "compatible retypings are reported (compatibleRetypeSeverity re-extr
             "schemas against the schema built from their own SDL; defaults enter the model as GraphQL values of their position (gql_canon_default, independent "
             "of the library's printer).",
      "Known findings G1, G4 (pinned). Repaired: G2, G3, G5, Python-equal defaults, subclass kinds, hash-dependent order, defaults as GraphQL values.")
+
+
+# ---- narrative of C06 brought up to date with the tree (builder ov2); replaces the accumulated text above ----
+CHECKS["C06"].update({
+    "text": ("MODELLED: the whole validation chain - TypeInfoVisitor's stacks (list-item types included), ChainedVisitor with the repaired SkipNode "
+             "semantics, all 26 rule visitors with their accumulators, VariablesCollector (fixes V3/V4), the fragment-cycle search, and the field-merge "
+             "search of OverlappingFieldsCanBeMerged in BOTH forms: un-memoised (code before fix 7e75356) and the MEMOISED search /repo runs (runM / "
+             "overlapMemoRun: compared-pairs memo keyed by the triple, compared-fragments set, parent-type cache). The rule list must equal SPECIFIED_RULES "
+             "RE-EXTRACTED from validate.py each run (rules_match_source). PROVED: every one of the 26 rules has a rule_*_iff theorem - the visitor, run "
+             "through the model's chain on any document and schema, is silent exactly when its declarative clause holds (ProvedAll = Rule.all, "
+             "Spec.Unproved = []); for the overlap rule as /repo runs it rule_overlapping_fields_memo_iff (memoised rule silent <=> clause of 5.3.2) under "
+             "ParentsAgree, no fragment named \"\" and WfIds only (no NoCrash, no rank bound: overlap_memo_terminates, rankSynB_of_wfIds), with "
+             "overlap_memo_complete / overlap_memo_never_loses / overlap_memo_neutral_side and runM_alone_eq (the chain the driver runs with the rule alone "
+             "IS overlapMemoRun). Headline statements for the validator /repo runs (Props/C06_head_memo.lean): verdict_iff_all_memo, "
+             "accepted_spec_valid_all_memo, spec_valid_accepted_all_memo, attribution_all_memo, verdict_memo_neutral, with DocOkM = wfIdsB (parser "
+             "guarantee, checked by the driver on every document), noMetaSubsB (no sub-selection below __schema/__type/__typename: counted exclusion), "
+             "non-empty fragment names, SchemaOutputs; the same for the un-memoised search with the static rank check (Props/C06_head.lean). The clauses "
+             "state what the CODE implements; where that is not the specification's clause the difference is a machine-checked refutation "
+             "(values_spec_clause_refuted = V8, overlap_full_statement_refuted, V3/V4 order dependence of the unfixed collector). INVARIANCE under the six "
+             "transformations of the statement, rule by rule on the model: perm_definitions_all25_partial, tr_invariance_25_partial (perm_selections, "
+             "perm_arguments, alpha_fragments), alpha_aliases_all25_partial (24 alias-blind rules state by state on the whole chain + "
+             "SingleFieldSubscriptions), alpha_variables_all25_partial (20 variable-blind rules state by state + the variable rules through their clauses) "
+             "cover 25 of the 26 rules; for OverlappingFieldsCanBeMerged perm_definitions_overlap_memo (SameDoc.clause: the clause of 5.3.2 reads a "
+             "document only through selection sets, typed nodes and the fragment table) and, where a *_all26 theorem is listed among the obligations below, "
+             "the remaining transformations by the same route (the clause of 5.3.2 transported along a simulation of documents + "
+             "rule_overlapping_fields_memo_iff). Structural theorems for EVERY rule list: typeinfo_balanced / selections_balanced / definitions_balanced, "
+             "skip_reports (a rule that skips has just added an error), rule_single_field_subscriptions_declarative_iff (CollectFields restricted to keys = "
+             "reachable response keys). TIED by correspondence (model chain vs validate_ast: verdict on every document; set of reporting rules on documents "
+             "with at most one injected violation; every rule standalone; memoised vs un-memoised model cross-check per document; schema and rule-instance "
+             "histories; derived schemas) and by the direct oracle on the real code: valid-by-construction => no error, each of 46 labelled single-rule "
+             "violations => an error attributable to that rule, verdict unchanged under the six transformations (+ whitespace/comma/comment re-spelling), "
+             "deterministic block memo_mode_table (memo key = triple)."),
+    "note": ("Trusted: Lean kernel; generators / injectors (validity by construction, one labelled violation each); is_subtype / types_overlap hand-modelled "
+             "(re-extracted where the translator applies). ONLY EXERCISED (no theorem): inside the full 26-rule chain the overlap rule loses the selection "
+             "sets below a node another rule skipped (modelled by runM, compared with the real validator); invariance of the overlap rule under the "
+             "transformations for which no *_all26 theorem is listed (metamorphic oracle); the un-memoised half of OverlapMemoNeutralStatement outside "
+             "OverlapSide (cross-checked per document, memo:crosscheck); documents with __schema { .. } / __type { .. } sub-selections are outside the "
+             "clause-level statements (ParentsAgree is false there: counted, compared on the verdict only); fragment variable definitions (parse option) "
+             "are corpus-tested against the real code only (model-does-not-cover:parse-options). Known finding V8 (list literal at a non-list position "
+             "accepted: the code's clause is proved, the specification's clause refuted). Repaired on the way: V3, V4, V7, V9, V10, V11, H3, H5, H6, "
+             "enter_list_value (C06/1, C06/2), overlap memo (fix 7e75356)."),
+    "technique": ("Lean 4 proof (all 26 rules: model silent <=> declarative clause, memoised overlap search included; chain-level verdict / attribution; "
+                  "invariance under six transformations) + full-chain model correspondence + labelled-violation / metamorphic oracle"),
+})
